@@ -43,8 +43,10 @@ def run(pid, tier, replay):
     binp = core.build("rules", features=feats)
     if replay:
         return do_replay(chk, binp, replay)
+    rm.stage(chk, "start")
     quick = chk.quick
     # one TLC run: laws of the codec (escape/unescape inverse, Denote(Fmt(a)) = a, scope of the deviations) + cases
+    rm.stage(chk, "build")
     cases = chk.path("cases.ndjson")
     g, n = core.tlc_generate("mc/MC_AddrCodec.tla", "mc/MC_AddrCodec_gen_%s.cfg" % ("quick" if quick else "thorough"), cases,
                              timeout=3000)
@@ -52,6 +54,7 @@ def run(pid, tier, replay):
         raise core.ToolError("MC_AddrCodec emitted no case")
     chk.add_tlc(g)
     chk.add("mc_states", g.distinct)
+    rm.stage(chk, "tlc-gen")
     obs = chk.path("obs.ndjson")
     core.run_bin(binp, ["addr-obs", cases, obs])
     nr = 3000 if quick else 150000
@@ -63,7 +66,9 @@ def run(pid, tier, replay):
     with open(obs, "a") as f, open(robs) as g2:
         for line in g2:
             f.write(line)
+    rm.stage(chk, "observe")
     out, lines = rm.validate(chk, "AddrCheck", obs, shards=4 if quick else 14)
+    rm.stage(chk, "tlc-check")
     classify(chk, out["MISMATCH"], lines)
     chk.add("enumerated_cases", n)
     chk.add("random_cases", len(lines) - n)
